@@ -87,7 +87,7 @@ fn gen_decl(rng: &mut Rng, types: u64, density: u64) -> (Vec<usize>, Vec<usize>)
 fn gen_ops(rng: &mut Rng, maxn: usize) -> (Vec<Op>, String) {
     let shape = rng.below(100);
     let mut ops = vec![];
-    let types = 2 + rng.below(3);
+    let types = 2 + rng.below(4);
     let density = *rng.pick(&[0u64, 20, 40, 60, 90]);
     let kind = |rng: &mut Rng| if rng.chance(50) { K::Logic } else { K::Contains };
     let mut add_fns = |rng: &mut Rng, ops: &mut Vec<Op>, n: usize, dens: u64| {
@@ -362,7 +362,7 @@ fn gen_runcfg(rng: &mut Rng, stream: bool, shared_only: bool) -> RunCfg {
     }
     let mut c = RunCfg { api, rev: false, limit: None, strat: Strat::Non, incl: true, ord: rng.below(6) as u8 };
     if c.api.contains("for_each_concurrent") {
-        c.limit = *rng.pick(&[None, None, Some(0), Some(1), Some(1), Some(2), Some(3)]);
+        c.limit = *rng.pick(&[None, None, Some(0), Some(1), Some(1), Some(2), Some(2), Some(3), Some(4), Some(5)]);
     }
     if c.has_opts() {
         c.rev = rng.chance(40);
